@@ -3,6 +3,7 @@
 import copy
 import multiprocessing as mp
 import pathlib
+from concurrent.futures import ThreadPoolExecutor
 
 from harness.core import MachineryError
 from harness.drivers import cards as dc
@@ -39,11 +40,15 @@ def run(chk):
     # ---- B1 -----------------------------------------------------------------------------
     dump = chk.scratch / "lh-states"
     cfg = "LhapdfMC_thorough.cfg" if chk.thorough() else "LhapdfMC.cfg"
-    r = chk.tlc("LhapdfMC", cfg, extra=("-dump", str(dump)), label="intended design, all grids of 1-4 points")
+    with ThreadPoolExecutor(3) as pool:   # three independent TLC runs
+        f1 = pool.submit(chk.tlc, "LhapdfMC", cfg, extra=("-dump", str(dump)), label="intended design, all grids of 1-4 points")
+        f2 = pool.submit(chk.tlc, "LhapdfMC", "LhapdfMC_SortedAssumed.cfg", expect_violation="InvQRange", label="vacuity guard / faithful switch SortedAssumed")
+        f3 = pool.submit(chk.tlc, "LhapdfMC", "LhapdfMC_XFromCard.cfg", expect_violation="InvXRange", label="vacuity guard / faithful switch XFromCard")
+        r = f1.result()
+        f2.result()
+        f3.result()
     if r.violated or not r.completed:
         raise MachineryError(f"Lhapdf.tla intended design violates {r.violated}: {r.counterexample()[:2000]}")
-    chk.tlc("LhapdfMC", "LhapdfMC_SortedAssumed.cfg", expect_violation="InvQRange", label="vacuity guard / faithful switch SortedAssumed")
-    chk.tlc("LhapdfMC", "LhapdfMC_XFromCard.cfg", expect_violation="InvXRange", label="vacuity guard / faithful switch XFromCard")
     states = dc.parse_dump(pathlib.Path(str(dump) + ".dump").read_text())
     if len(states) != r.distinct:
         raise MachineryError(f"dump has {len(states)} states, TLC reports {r.distinct}")
@@ -51,15 +56,13 @@ def run(chk):
 
     # ---- B2 -----------------------------------------------------------------------------
     # quick: every accepted grid of <= 2 points, seeded samples of the longer accepted grids and of
-    # the grids the design refuses; thorough: every state
-    if chk.thorough():
-        chosen = cases
-    else:
-        acc = [c for c in cases if not c[2]]
-        short = [c for c in acc if len(c[0]) <= 2]
-        long_ = [c for c in acc if len(c[0]) > 2]
-        ref = [c for c in cases if c[2]]
-        chosen = short + chk.rng.sample(long_, min(130, len(long_))) + chk.rng.sample(ref, min(24, len(ref)))
+    # the grids the design refuses; thorough: larger samples over 4 scale ranks
+    acc = [c for c in cases if not c[2]]
+    short = [c for c in acc if len(c[0]) <= 2]
+    long_ = [c for c in acc if len(c[0]) > 2]
+    ref = [c for c in cases if c[2]]
+    n_long, n_ref = (5000, 500) if chk.thorough() else (130, 24)
+    chosen = short + chk.rng.sample(long_, min(n_long, len(long_))) + chk.rng.sample(ref, min(n_ref, len(ref)))
     chosen = [(eg, tgt) for eg, tgt, _ in chosen]
     jobs = [(k, eg, tgt, chk.rng.randrange(2**31), str(chk.scratch)) for k, (eg, tgt) in enumerate(chosen)]
     ctx = mp.get_context("fork")
